@@ -100,6 +100,9 @@ func dumpOdt(els []odt.VerifElem) string {
 const gridBase = 2_000_000
 
 func docFor(r *hx.Rng, idx int) *ldoc {
+	if idx >= renderBase {
+		return genRenderDoc(r, formatOf(idx))
+	}
 	if idx >= edgeBase {
 		return genEdgeDoc(r, formatOf(idx))
 	}
@@ -164,12 +167,16 @@ func RunDoc(c *hx.Ctx, idx int, keep bool) {
 	path := filepath.Join(c.OutDir, fmt.Sprintf("doc-%d.%s", idx, F))
 	var opLine string
 	var odtTables []*Node
+	var dpkg docxPkg
+	var opkg odtPkg
 	if F == "docx" {
 		pkg := writeDocx(r, d)
+		dpkg = pkg
 		os.WriteFile(path, writers.Zip(pkg.Members), 0o644)
 		opLine = "c16.docx " + pkg.Doc.Sexp() + " " + sexpOrDash(pkg.Styles)
 	} else {
 		pkg := writeOdt(r, d)
+		opkg = pkg
 		os.WriteFile(path, writers.Zip(pkg.Members), 0o644)
 		opLine = "c16.odt " + pkg.Content.Sexp() + " " + sexpOrDash(pkg.Styles)
 		odtTables = pkg.Tables
@@ -185,6 +192,7 @@ func RunDoc(c *hx.Ctx, idx int, keep bool) {
 	var openErr, apiErr error
 	var rdText, rdMD string
 	var colCounts []int
+	var docxEls []docx.VerifElem
 	seq := viewSeq(c.Rng.Fork(uint64(idx) + 1<<40))
 	var reused viewRun
 	pan := hx.Safe(func() {
@@ -196,6 +204,7 @@ func RunDoc(c *hx.Ctx, idx int, keep bool) {
 			}
 			defer rd.Close()
 			els := rd.VerifElements()
+			docxEls = els
 			implLine = dumpDocx(els)
 			out.Parsed, out.HaveParsed = parsedDocx(els), true
 			rdText, _ = rd.Text()
@@ -250,6 +259,26 @@ func RunDoc(c *hx.Ctx, idx int, keep bool) {
 			got = fmt.Sprint(colCounts[k])
 		}
 		c.Op("c16.odtcols "+columnsOnly(tn).Sexp(), got)
+	}
+	vr := c.Rng.Fork(uint64(idx) + 1<<41)
+	if F == "docx" {
+		docxViewsOp(c, dpkg, path, drawViewOpts(vr), drawCallSeq(vr), kase)
+		docxResolveOp(c, vr, dpkg, kase)
+		docxVMergeOps(c, dpkg, docxEls)
+		if idx%3 == 0 {
+			apiOp(c, F, path, docxModelArgs(dpkg), vr.Chance(1, 3), vr.Chance(1, 3), kase)
+		}
+		if d.Fam != nil || d.Body != "" || idx%4 == 0 {
+			// the element list as the model computes it WITH the resolver's cache
+			c.Op("c16.docx.cached "+dpkg.Doc.Sexp()+" "+sexpOrDash(dpkg.Styles), implLine)
+			c.Count("docx-element-list-with-cache-op")
+		}
+	} else {
+		odtViewsOp(c, opkg, path, drawViewOpts(vr), drawCallSeq(vr), kase)
+		odtResolveOp(c, vr, opkg, kase)
+		if idx%3 == 1 {
+			apiOp(c, F, path, odtModelArgs(opkg), vr.Chance(1, 3), vr.Chance(1, 3), kase)
+		}
 	}
 	c.Check("C16/"+F+"-api-agree", out.Text == rdText && out.MD == rdMD, kase, func() string {
 		return fmt.Sprintf("tabula.Open(f).Text()/ToMarkdown() differ from the %s reader's Text()/Markdown()", F)
@@ -332,6 +361,9 @@ func stats(c *hx.Ctx, d *ldoc) {
 				}
 			}
 			c.Count(d.Format + "-table")
+			if bl.T.Groups > 0 {
+				c.Count("odt-table-grouped:" + []string{"", "header-rows", "header-rows+table-rows", "table-columns+table-rows", "nested-row-groups", "header-columns+column-group"}[bl.T.Groups])
+			}
 			for _, k := range bl.T.mergeClasses() {
 				c.Count(d.Format + "-" + k)
 			}
@@ -508,8 +540,12 @@ func respelled(raw string) int {
 func columnsOnly(t *Node) *Node {
 	n := &Node{Tag: t.Tag, Attrs: t.Attrs}
 	for _, k := range t.Kids {
-		if k.Tag == "table:table-column" {
+		switch k.Tag {
+		case "table:table-column":
 			n.Kids = append(n.Kids, k)
+		case "table:table-columns", "table:table-header-columns", "table:table-column-group",
+			"table:table-rows", "table:table-header-rows", "table:table-row-group":
+			n.Kids = append(n.Kids, columnsOnly(k)) // a grouping element: its columns count like direct ones
 		}
 	}
 	return n
@@ -718,12 +754,16 @@ func runWitness(c *hx.Ctx, wi int, keep bool) {
 	var odtTables []*Node
 	var colCounts []int
 	var reused viewRun
+	var dpkg docxPkg
+	var opkg odtPkg
 	if d.Format == "docx" {
 		pkg := writeDocx(r, d)
+		dpkg = pkg
 		os.WriteFile(path, writers.Zip(pkg.Members), 0o644)
 		opLine = "c16.docx " + pkg.Doc.Sexp() + " -"
 	} else {
 		pkg := writeOdt(r, d)
+		opkg = pkg
 		os.WriteFile(path, writers.Zip(pkg.Members), 0o644)
 		opLine = "c16.odt " + pkg.Content.Sexp() + " -"
 		odtTables = pkg.Tables
@@ -733,10 +773,12 @@ func runWitness(c *hx.Ctx, wi int, keep bool) {
 	}
 	var out outputs
 	var implLine string
+	var docxEls []docx.VerifElem
 	pan := hx.Safe(func() {
 		if d.Format == "docx" {
 			if rd, err := docx.Open(path); err == nil {
 				els := rd.VerifElements()
+				docxEls = els
 				implLine = dumpDocx(els)
 				out.Parsed, out.HaveParsed = parsedDocx(els), true
 				rd.Close()
@@ -771,6 +813,13 @@ func runWitness(c *hx.Ctx, wi int, keep bool) {
 		}
 		c.Op("c16.odtcols "+columnsOnly(tn).Sexp(), got)
 	}
+	if d.Format == "docx" {
+		docxViewsOp(c, dpkg, path, viewOpts{}, "TMRDLPDMT", kase)
+		docxVMergeOps(c, dpkg, docxEls)
+		c.Op("c16.docx.cached "+dpkg.Doc.Sexp()+" -", implLine)
+	} else {
+		odtViewsOp(c, opkg, path, viewOpts{}, "TMRDLPDMT", kase)
+	}
 	f := evaluate(d, out)
 	for _, k := range oracleKeys[d.Format] {
 		detail, bad := f[k]
@@ -796,7 +845,10 @@ func Run(c *hx.Ctx) {
 		"w:ilvl 0..8, respelled, omitted, and 9, 10, 255, 2^31-1, 10^20-1, -1, empty, a word) - for values outside the range only presence, order and place of the text are demanded by the oracles, the Lean model decides the rest; " +
 		"ODT lists that start below level 0 or deepen several levels at once (list items that only wrap the nested list), items with an empty paragraph or none (with and without items nested below); " +
 		"for every document the views of one more reader (Text, Markdown, RAG Markdown, Document, parsed tables, model tables) asked for in a random order with repetitions, every view checked by the same oracles and for stability; every text piece a unique token, rendered by the harness's own DOCX and ODT writers " +
-		"(even index = DOCX, odd = ODT); plus fixed witnesses of the quoted defects and a stream of damaged packages; non-trivial = Document() has at least one element"
+		"(even index = DOCX, odd = ODT); ODT tables group their rows / columns in table-header-rows, table-rows, table-row-group, table-columns, table-header-columns, table-column-group in two of five cases; " +
+		"for every document ONE more reader whose views (TextWithOptions, MarkdownWithOptions, MarkdownWithRAGOptions, Document, ModelTables, parsed elements) are asked for in a drawn order with repetitions and drawn options (exclusion switches, heading offset -3..4, heading cap 0/1/3/6/9/-1), every answer compared in full with the Lean model of the writers; the views through tabula.Open(f) with drawn Exclude switches; a drawn history of 3..12 Resolve calls (ids the document uses and ids it does not define, repeated, the empty id) on one style resolver; the row spans of every DOCX body table against the state-free specification of the vertical-merge pass; " +
+		"plus a render stream: regular documents into which body paragraphs are planted that ARE header/footer lines (bare, padded with spaces / tabs / no-break spaces / line breaks, near misses; as paragraph, heading, list item, table cell), cell text with pipes and Unicode spaces, a first / last paragraph that begins / ends with line breaks, paragraphs and list items without text, DOCX headings that also carry numbering properties, numbering parts and ODT list styles drawn at random (every number format incl. unknown ones, level texts plain / pattern / Private-Use / control character / empty, start values 0 / negative / huge / not a number, levels missing or defined twice, ids that point nowhere), ODT lists without a style name or with an undefined one - these are checked by the correspondence of all views, the panic check and the leak count (a header/footer line occurs in Text() / Markdown() exactly as often as the body holds it, exclusion never adds text); " +
+		"plus fixed witnesses of the quoted defects and a stream of damaged packages; non-trivial = Document() has at least one element"
 	for wi := range witnessDocs() {
 		runWitness(c, wi, false)
 	}
@@ -809,6 +861,9 @@ func Run(c *hx.Ctx) {
 	}
 	for i, n := 0, c.N(200, 3000); i < n; i++ {
 		RunDoc(c, edgeBase+i, false)
+	}
+	for i, n := 0, c.N(300, 5000); i < n; i++ {
+		RunRenderDoc(c, renderBase+i, false)
 	}
 	for i := 0; i < c.N(100, 1500); i++ {
 		malformed(c, i)
@@ -824,6 +879,10 @@ func Replay(c *hx.Ctx, kase map[string]interface{}) {
 	idx, _ := kase["index"].(float64)
 	if m, _ := kase["malformed"].(bool); m {
 		malformed(c, int(idx))
+		return
+	}
+	if int(idx) >= renderBase {
+		RunRenderDoc(c, int(idx), true)
 		return
 	}
 	RunDoc(c, int(idx), true)
